@@ -29,7 +29,7 @@ ASSUMPTIONS = [
 ]
 BUDGET = {"quick": {"examples": 4000}, "thorough": {"examples": 300000, "deadline_s": 1500}}
 
-CFG = gen.cfg(max_syms=16)
+CFG = gen.cfg(max_syms=16, p_multi_def=12, p_menu=30, p_menu_vis=55, p_bare=6)
 
 
 @st.composite
